@@ -71,11 +71,11 @@ func (f Fault) String() string {
 	if f.Kind == "none" {
 		return "complete"
 	}
-	if f.Kind == "stop" {
+	if f.Kind == "stop" || f.Kind == "delay" {
 		if f.K == 0 {
-			return "stop-after:begin-marker"
+			return f.Kind + "-after:begin-marker"
 		}
-		return fmt.Sprintf("stop-after:%s:%d", f.Name, f.K)
+		return fmt.Sprintf("%s-after:%s:%d", f.Kind, f.Name, f.K)
 	}
 	return fmt.Sprintf("%s-before:%s:%d", f.Kind, f.Name, f.K)
 }
@@ -228,6 +228,9 @@ func site(sc Scenario) string {
 	if sc.overlap() != "" {
 		s += "/overlapping-writers"
 	}
+	if sc.concurrent() {
+		s += "/concurrent-calls"
+	}
 	if sc.has("signed") {
 		s += "(signed)"
 	}
@@ -284,7 +287,7 @@ func (e *env) report(sc Scenario, f Fault, call string, v *Verdict, extra []Prob
 			}
 		}
 		det = longDigitsRe.ReplaceAllString(det, "#")
-		kind := map[string]int{"none": 0, "kill": 1, "error": 2, "stop": 3}[f.Kind]
+		kind := map[string]int{"none": 0, "kill": 1, "error": 2, "stop": 3, "delay": 4}[f.Kind]
 		e.pmu.Lock()
 		e.pending = append(e.pending, pendingViolation{
 			key:    fmt.Sprintf("%s|%d|%s|%06d", sc.Name(), kind, f.Name, f.K),
@@ -380,6 +383,9 @@ func (e *env) runPoint(fp FaultPoint, verbose bool) string {
 	sc := fp.Sc
 	if fp.Fault.Kind == "stop" {
 		return e.runOverlapPoint(fp, verbose)
+	}
+	if fp.Fault.Kind == "delay" {
+		return e.runConcurrentPoint(fp, verbose)
 	}
 	var lastWhy string
 	for attempt := 0; attempt < 3; attempt++ {
@@ -538,6 +544,9 @@ var srvModes = []string{
 // interrupted-download scenarios are decided by their complete run; quick
 // combines only three of them with crash points.
 func (e *env) wantPoints(sc Scenario) bool {
+	if e.c.Quick() && sc.word("gzm=") != "" && sc.New == "large" {
+		return false // 5 MiB unpacked in 32 KiB writes: complete run only in quick
+	}
 	if !sc.mayFail() || !e.c.Quick() || sc.Tmp == "explicit-other" {
 		return true
 	}
@@ -680,6 +689,16 @@ func buildScenarios(c *vlib.Ctx, haveOther bool) []Scenario {
 			}
 		}
 	}
+	// multi-member gzip resources (cat a.gz b.gz ...): the new content is all members concatenated
+	for _, m := range []string{"gzm=2", "gzm=3"} {
+		add(opUnpackFile, "absent", "small", "registry", m)
+		if m == "gzm=2" || !q {
+			add(opUnpackFile, "absent", "large", "registry", m)
+		}
+	}
+	// two overlapping UnpackArchive calls on the same resource in one process
+	add(opUnpackZip, "absent", "small", "registry", "concurrent")
+	add(opUnpackZip, "absent", "medium", "registry", "concurrent")
 	// updater unpacking
 	for _, n := range []string{"small", big} {
 		add(opUnpackZip, "absent", n, "registry", "")
@@ -699,6 +718,7 @@ func run(c *vlib.Ctx) {
 	c.Assume("parent directories of the destination created by the operation (fstree.Put into a new directory, updater storage sub-directory) are not counted as stray files; mode changes of directories are not asserted")
 	c.Assume("a temporary entry is one named .<destination base name><random> directly inside the destination's directory, $TMPDIR or the configured temp dir (or anything below such an entry), or anything below the updater registry's tmp directory")
 	c.Assume("overlapping writers (var overlap=same|other): bound = two writer processes, writer B runs completely between two system calls of writer A; A is stopped by strace (SIGSTOP injected at the call, the stop takes effect when the call has returned) after the begin marker and after each of its file-system-mutating calls in turn, B runs, A is continued; interleavings in which B is itself interrupted by A, or with three writers, are not enumerated; the oracle is evaluated when B finished and when both finished")
+	c.Assume("concurrent calls (var concurrent): two UnpackArchive calls on the same resource in ONE process (they share the resource lock; two processes would not, and on the unchanged code two processes on one storage dir do destroy each other's result: the failing call removes the destination the other one published - outside the statement, which relies on the in-process lock); call A's thread is held by strace (delay_exit) after the begin marker and after each of its mutating calls in turn and call B is released at that moment; bound: two calls, B released at one point of A; whether B ran inside the delay window or waited for A is recorded in the outcome class")
 	c.Assume("interrupted downloads (var srv=...) and damaged archives (var dmg=...) are decided after the operation returned: an error with the previous state kept satisfies the property; for a damaged archive the complete new tree cannot exist, so anything published is a fragment")
 	c.Assume("index files written by updater.downloadIndex use os.WriteFile and are not claimed by the property; not exercised")
 
@@ -784,12 +804,16 @@ func run(c *vlib.Ctx) {
 			continue
 		}
 		c.Scenario(sr.sc.Name())
-		if sr.sc.overlap() != "" {
-			// stop points: after the begin marker (B runs before A's first call) and after every mutating call of A
-			points = append(points, FaultPoint{Sc: sr.sc, Fault: Fault{Kind: "stop", Name: "faccessat", K: 0}, When: sr.beginWhen, Norm: "begin-marker"})
+		if sr.sc.overlap() != "" || sr.sc.concurrent() {
+			// stop / delay points: after the begin marker (B runs before A's first call) and after every mutating call of A
+			kind := "stop"
+			if sr.sc.concurrent() {
+				kind = "delay"
+			}
+			points = append(points, FaultPoint{Sc: sr.sc, Fault: Fault{Kind: kind, Name: "faccessat", K: 0}, When: sr.beginWhen, Norm: "begin-marker"})
 			owner = append(owner, i)
 			for _, p := range sr.points {
-				p.Fault.Kind = "stop"
+				p.Fault.Kind = kind
 				points = append(points, p)
 				owner = append(owner, i)
 			}
@@ -840,7 +864,7 @@ func run(c *vlib.Ctx) {
 	// vacuity: a publishing scenario must have shown both the old and the new state
 	vac := 0
 	for _, sr := range results {
-		if sr == nil || len(sr.points) == 0 || sr.sc.mayFail() || sr.sc.overlap() != "" {
+		if sr == nil || len(sr.points) == 0 || sr.sc.mayFail() || sr.sc.overlap() != "" || sr.sc.concurrent() {
 			continue
 		}
 		old, nw := false, false
@@ -886,7 +910,7 @@ func (e *env) replay() {
 	if w.Fault.Kind == "none" || w.Fault.Kind == "" {
 		return
 	}
-	if w.Fault.Kind == "stop" && w.Fault.K == 0 {
+	if (w.Fault.Kind == "stop" || w.Fault.Kind == "delay") && w.Fault.K == 0 {
 		fmt.Println("overlap run:")
 		e.runPoint(FaultPoint{Sc: w.Scenario, Fault: w.Fault, When: sr.beginWhen, Norm: "begin-marker"}, true)
 		return
